@@ -132,7 +132,11 @@ def check_answer(im, req, recurse, strip, eqs, bad, j):
                     b = complex(eq.rhs.xreplace(env).evalf())
                 except Exception:
                     continue
-                if abs(a - b) > 1e-9 * (1 + abs(a)):
+                try:
+                    differs = abs(a - b) > 1e-9 * (1 + abs(a))
+                except OverflowError:       # values beyond the double range: compare as they are
+                    differs = a != b
+                if differs:
                     bad.append(('unit-stripped right-hand side of %s evaluates to %r, the original to %r' % (eq.lhs, b, a),
                                 {'op_index': j}))
                     break
